@@ -114,7 +114,8 @@ fn list_laws(l: &[RV]) -> Vec<Law> {
     }
     laws.push(law("unique", "unique(l)", Some(RV::List(uniq))));
     // chunk / flatten
-    for c in 1..=(n.max(1) + 1).min(6) {
+    let chunk_sizes: Vec<usize> = if n <= 8 { (1..=(n.max(1) + 1).min(6)).collect() } else { vec![1, 2, 3, 7, 16, 17, n - 1, n, n + 1] };
+    for c in chunk_sizes {
         let chunks: Vec<RV> = l.chunks(c).map(|ch| RV::List(ch.to_vec())).collect();
         laws.push(Law { name: "chunk", program: format!("chunk(l, {})", c), expected: Some(RV::List(chunks)) });
         laws.push(Law { name: "flatten-chunk", program: format!("flatten(chunk(l, {}))", c), expected: Some(me.clone()) });
@@ -128,9 +129,10 @@ fn list_laws(l: &[RV]) -> Vec<Law> {
         }
     }
     laws.push(law("flatten", "flatten(l)", Some(RV::List(flat))));
-    // slice on every in-range pair
-    for a in 0..=n {
-        for b in a..=n {
+    // slice on every in-range pair (long lists: pairs around the ends and the middle)
+    let cuts: Vec<usize> = if n <= 8 { (0..=n).collect() } else { vec![0, 1, 2, n / 2, n - 2, n - 1, n] };
+    for &a in &cuts {
+        for &b in cuts.iter().filter(|b| **b >= a) {
             laws.push(Law { name: "slice", program: format!("slice(l, {}, {})", a, b), expected: Some(RV::List(l[a..b].to_vec())) });
         }
     }
@@ -144,7 +146,8 @@ fn list_laws(l: &[RV]) -> Vec<Law> {
         .collect();
     laws.push(law("zip3", "zip(m, l, l)", Some(RV::List(zipped3))));
     // indexing
-    for i in -(n as i64) - 2..=(n as i64) + 1 {
+    let idxs: Vec<i64> = if n <= 8 { (-(n as i64) - 2..=(n as i64) + 1).collect() } else { vec![-(n as i64) - 1, -(n as i64), -17, -16, -1, 0, 1, 15, 16, 17, n as i64 - 1, n as i64, n as i64 + 1] };
+    for i in idxs {
         laws.push(Law { name: "index", program: format!("l[{}]", if i < 0 { format!("(-{})", -i) } else { i.to_string() }), expected: Some(index_ref(l, i)) });
     }
     // includes
@@ -448,9 +451,7 @@ pub fn run(ctx: &Ctx, replay: Option<&J>) -> i32 {
             return;
         }
         ctx.nontrivial(&lsrc);
-        if l.len() <= 8 {
-            run_laws(ctx, &mut sess, &lsrc, list_laws(l));
-        }
+        run_laws(ctx, &mut sess, &lsrc, list_laws(l));
         check_sort(ctx, &mut sess, l, &lsrc);
     });
     // ---- strings
